@@ -132,6 +132,19 @@ def check_return_is_stored(ctx, rule, nocache_rule, f, cls, protected, map_attr)
             fs = [t for t, v2 in facts.at(r)]
             guard = [t for t, v2 in facts.at(r) if v2 and "is None" in t and "isinstance" in t]
             ok = bool(guard)
+            if ok:
+                # exactly the documented exceptions: no name, a local-zone class (tzlocal_classes), nothing found
+                from ..summ import dnf
+                import re as _re
+                atoms_ = set()
+                for case in dnf(ast.parse(guard[0], mode="eval").body, True):
+                    for a_, tv_ in case:
+                        atoms_.add((_re.sub(r"\b%s\b" % _re.escape(x), "RV", str(a_)), tv_))
+                want_ = {("name is None", True), ("name is None", False), ("isinstance(RV, tzlocal_classes)", True), ("isinstance(RV, tzlocal_classes)", False),
+                         ("RV is None", True)}
+                if not (atoms_ <= want_ and {a for a, _ in atoms_} == {"name is None", "isinstance(RV, tzlocal_classes)", "RV is None"}):
+                    ok = False
+                    guard = ["the uncached cases are %s, not {no name, local zone class, nothing found}" % sorted(set(a for a, _ in atoms_))]
             ctx.ob(nocache_rule, f, "the only return of an unstored zone is guarded by the documented no-cache "
                    "condition (no name / local zone class / nothing found)", ok,
                    construct="%s ; %s" % (stmt_text(d), stmt_text(r)),
